@@ -45,8 +45,10 @@ func checkC11(r *Run) {
 	r3 := r.Rule("R-C11-3", "no channel wait under a mutex other than muConnecting; a mutex held across a wait is locked exclusively only by Connect")
 	r4 := r.Rule("R-C11-4", "reader goroutine: serve() -> Close() -> close(connClosed) on every path, no blocking channel operation in between, single close site, Done() returns that channel")
 	r5 := r.Rule("R-C11-5", "lock order acyclic; no RWMutex read-locked twice on one path")
+	r6 := r.Rule("R-C11-6", "user callbacks (ConnState, OnError, Handler.Serve) are invoked with no library mutex held other than muConnecting")
 	r1.Floor(7)
 	r2.Floor(8)
+	c.ruleCallbacksUnlocked(r6)
 	sites := c.sitesOrLost(r1)
 	c.ruleThreeWaySelect(r1, nil, sites)
 
@@ -60,6 +62,10 @@ func checkC11(r *Run) {
 	a := c.retryAnchors()
 	taskG := c.taskGoroutine(a)
 	rm, _ := c.reconnModel()
+	inReadSide := map[*ssa.Function]bool{}
+	if serve := c.Method("BaseClient", "serve"); serve != nil {
+		inReadSide = c.reachableFuncs([]*ssa.Function{serve}, false)
+	}
 	for _, op := range c.blockingOps() {
 		if siteSel[op.In] {
 			continue // R-C11-1
@@ -111,6 +117,8 @@ func checkC11(r *Run) {
 				}
 			}
 			r2.Bad(key, op.In.Pos(), "unclassified blocking receive in KeepAlive")
+		case op.Kind == "send" && inReadSide[op.F]:
+			r2.Bad(key, op.In.Pos(), "blocking send in the reader goroutine: a peer that repeats an acknowledgement (or answers a request that was abandoned) fills the waiter's buffer and then blocks the reader for ever — Close, peer close and protocol errors no longer end the connection or close Done()")
 		case op.Kind == "send":
 			c.classifySend(r2, op, key)
 		default:
@@ -361,5 +369,57 @@ func (c *Ctx) ruleReaderExit(rr *RuleRep) {
 	}
 	if created == 0 {
 		rr.Lost("connClosed/creation", "no creation site")
+	}
+}
+
+// ruleCallbacksUnlocked: a user callback invoked under a library mutex deadlocks as soon as it calls back into the client.
+func (c *Ctx) ruleCallbacksUnlocked(rr *RuleRep) {
+	la := c.locks()
+	n := 0
+	allowed := "BaseClient." + aliasField("BaseClient", "muConnecting")
+	for _, f := range c.Funcs {
+		eachInstr(f, func(in ssa.Instruction) {
+			cc := callCommon(in)
+			if cc == nil {
+				return
+			}
+			if _, isGo := in.(*ssa.Go); isGo {
+				return
+			}
+			what := ""
+			if cc.IsInvoke() {
+				if cc.Method.Name() == "Serve" && typeName(cc.Value.Type()) == "Handler" {
+					what = "Handler.Serve"
+				}
+			} else if cc.StaticCallee() == nil {
+				if ld, ok := cc.Value.(*ssa.UnOp); ok {
+					if fa, ok := ld.X.(*ssa.FieldAddr); ok {
+						if _, fld := fieldOf(fa); fld != nil && fld.Exported() {
+							if _, isFn := fld.Type().Underlying().(*types.Signature); isFn {
+								what = typeName(fa.X.Type()) + "." + fld.Name()
+							}
+						}
+					}
+				}
+			}
+			if what == "" {
+				return
+			}
+			n++
+			key := FuncName(f) + "/callback " + what
+			bad := false
+			for id := range la.at[in] {
+				if string(id) != allowed {
+					bad = true
+					rr.Bad(key, in.Pos(), "the user callback %s is invoked while %s is held: a callback that touches the client (Done(), Err(), Publish...) blocks for ever, and with it Connect, Disconnect or the reader goroutine's shutdown", what, id)
+				}
+			}
+			if !bad {
+				rr.OK(key, in.Pos(), "invoked with %s held", la.at[in])
+			}
+		})
+	}
+	if n == 0 {
+		rr.Lost("callbacks", "no user callback invocation found")
 	}
 }
